@@ -78,6 +78,13 @@ for fn in sorted(os.listdir(root)):
                 srv.handle({"jsonrpc": "2.0", "id": 1, "method": m, "params": {"textDocument": {"uri": uri}, "position": {"line": ln, "character": 9}}})
         srv.handle({"jsonrpc": "2.0", "id": 2, "method": "textDocument/documentSymbol", "params": {"textDocument": {"uri": uri}}})
         srv.handle({"jsonrpc": "2.0", "method": "textDocument/didSave", "params": {"textDocument": {"uri": uri}}})
+        # history: the same document changes to a second version (fn.v2), is queried and saved again
+        if os.path.exists(os.path.join(root, fn + ".v2")):
+            text = open(os.path.join(root, fn + ".v2")).read()
+            srv.handle({"jsonrpc": "2.0", "method": "textDocument/didChange", "params": {"textDocument": {"uri": uri}, "contentChanges": [{"text": text}]}})
+            for ln in range(len(text.split("\n"))):
+                srv.handle({"jsonrpc": "2.0", "id": 1, "method": "textDocument/hover", "params": {"textDocument": {"uri": uri}, "position": {"line": ln, "character": 9}}})
+            srv.handle({"jsonrpc": "2.0", "method": "textDocument/didSave", "params": {"textDocument": {"uri": uri}}})
 real = [e for e in events if not (e[0] == "compile")]
 json.dump({"events": real, "compiles": [e for e in events if e[0] == "compile"][:5], "canary": os.path.exists(canary)}, open(logp, "w"))
 ''' % {"repo": REPO}
@@ -103,6 +110,25 @@ def catalogue(canary):
         out.append(("pp_defs-file:%d" % i, {"a.F90": mod % "#if X", ".fortls": json.dumps({"pp_defs": {"X": p}})}, []))
         out.append(("pp_defs-cli:%d" % i, {"a.F90": mod % "#if X"}, ["--pp_defs", json.dumps({"X": p})]))
         out.append(("fndefine:%d" % i, {"a.F90": "#define F(a) %s\n" % p + mod % "#if F(1)"}, []))
+        # histories: the same directive text is met first with a harmless and then with a hostile macro value
+        out.append(("redefine:%d" % i, {"a.F90": "module m\n#define X 1\n#if X > 0\ninteger :: v\n#endif\n#undef X\n#define X %s\n#if X > 0\ninteger :: w\n#endif\nend module m\n" % p}, []))
+        out.append(("twofiles:%d" % i, {"a.F90": "#define LEVEL 2\n" + mod % "#if LEVEL > 1", "b.F90": "#define LEVEL %s\nmodule m2\n#if LEVEL > 1\ninteger :: v\n#endif\nend module m2\n" % p}, []))
+        out.append(("edit:%d" % i, {"a.F90": "#define X 1\n" + mod % "#if X", "a.F90.v2": "#define X %s\n" % p + mod % "#if X"}, []))
+        out.append(("edit-header:%d" % i, {"a.F90": "#include \"h.h\"\n" + mod % "#if X == 1", "h.h": "#define X 1\n", "a.F90.v2": "#undef X\n#define X %s\n" % p + mod % "#if X == 1"}, []))
+    # the configuration file itself, in every spelling a loader could be tempted to understand
+    mod = "module m\ninteger :: v\nend module m\n"
+    sysc = "touch %s" % canary
+    cfg_texts = {"yamltag": "!!python/object/apply:os.system ['%s']\n" % sysc,
+                 "yamlmap": "nthreads: 1\npp_defs: !!python/object/apply:os.system ['%s']\n" % sysc,
+                 "pyexpr": "__import__('os').system('%s')\n" % sysc,
+                 "pydict": "{'nthreads': __import__('os').system('%s')}\n" % sysc,
+                 "jsonstr": json.dumps({"nthreads": 1, "pp_defs": {"X": "__import__('os').system('%s')" % sysc}, "source_dirs": ["$(%s)" % sysc, "`%s`" % sysc],
+                                        "incl_suffixes": [";%s;" % sysc], "excl_paths": ["|%s" % sysc]}),
+                 "toml": "nthreads = 1\n[pp_defs]\nX = \"1\"\n"}
+    for cname, text in cfg_texts.items():
+        for fn in (".fortls", ".fortlsrc", ".fortls.json", "cfg.yaml", "cfg.yml", "cfg.py", "cfg.json", "cfg.toml"):
+            extra = [] if fn.startswith(".fortls") else ["-c", fn]
+            out.append(("config:%s:%s" % (cname, fn), {"a.F90": "#define X 1\n#if X\n#endif\n" + mod, fn: text}, extra))
     # configuration values that name files: only the debug log inside the workspace may be written
     mod = "module m\ninteger :: v\nend module m\n"
     for i, v in enumerate([True, "../c17_outside_notes.txt", canary, "sub/../../c17_outside2.txt"]):
